@@ -32,7 +32,7 @@ stub_property!(c08, C08, "C08");
 pub mod c09;
 pub mod c10;
 pub mod c11;
-stub_property!(c12, C12, "C12");
+pub mod c12;
 stub_property!(c13, C13, "C13");
 stub_property!(c14, C14, "C14");
 stub_property!(c15, C15, "C15");
